@@ -72,11 +72,16 @@ def prepare(names):
                 ns.protocols = importlib.import_module(pkg + ".protocols")
                 ns.B = importlib.import_module(pkg + "._binary")
                 ns.binary = importlib.import_module(pkg + ".binary")
+                try:
+                    ns.J = importlib.import_module(pkg + "._ndjson")
+                    ns.ndjson = importlib.import_module(pkg + ".ndjson")
+                except Exception:                  # a package generated without the NDJSON classes
+                    ns.J = ns.ndjson = None
                 g[kind] = ns
         finally:
             sys.dont_write_bytecode = old
         # the symbolic copy of the runtime gets the same module-global shims as the static files
-        for m in (g["sym"].T, g["sym"].B):
+        for m in (g["sym"].T, g["sym"].B) + ((g["sym"].J,) if g["sym"].J is not None else ()):
             mem.install(m)
         # generated types.py converts operands with int(...)/float(...): keep symbolic ints symbolic there
         mem.install(g["sym"].types, names={"int", "float", "len", "isinstance", "bool"})
@@ -135,6 +140,17 @@ class WriterSpec:
             return None
         return hooks + ["_write_x%d" % k], (k + 1, False)
 
+    def write_failed(self, st, k):
+        """the implementation of an accepted write_<step k> raises: -> None if the call is rejected anyway, else (hooks, post).
+        The hooks are those of the successful call (the failing _write hook was entered); the step is NOT written, so
+        the post-state is the pre-state, except that a stream in progress before step k has been ended for good (its end
+        marker is on the wire): "previous stream ended, step k not done"."""
+        r = self.write(st, k)
+        if r is None:
+            return None
+        i, op = st
+        return r[0], ((k, False) if (op and k == i + 1) else st)
+
     def close(self, st):
         """-> (accepted, hooks).  _close always runs (resources are released even on a protocol error)"""
         i, op = st
@@ -173,11 +189,20 @@ def enc(st):
     return 2 * st[0] + (1 if st[1] else 0)
 
 
-def mk_writer(P, pattern, log):
+class ImplError(Exception):
+    """raised by a recording _write_<step> hook: the implementation layer (serializer, user iterable, I/O) fails"""
+
+
+def mk_writer(P, pattern, log, failing=None):
+    """failing: a (mutable) collection of step indices whose _write hook raises ImplError after having been entered"""
     cls = getattr(P, "P%sWriterBase" % pattern)
     ns = {"_close": lambda self: log.append(("_close",)), "_end_stream": lambda self: log.append(("_end_stream",))}
     for k in range(len(pattern)):
-        ns["_write_x%d" % k] = (lambda kk: lambda self, value: log.append(("_write_x%d" % kk, value)))(k)
+        def hook(self, value, kk=k):
+            log.append(("_write_x%d" % kk, value))
+            if failing is not None and kk in failing:
+                raise ImplError("implementation of write_x%d failed" % kk)
+        ns["_write_x%d" % k] = hook
     return type("W", (cls,), ns)
 
 
@@ -228,7 +253,8 @@ def h_c07_writer(env, pattern, family="c07seq"):
     spec = WriterSpec(pattern)
     states = spec.states()
     log = []
-    w = mk_writer(P, pattern, log)()
+    failing = set()
+    w = mk_writer(P, pattern, log, failing)()
     st = related_state(env, spec, "state", n)
     w._state = st
     call = env.choice("call", n + 3)   # write_x0..x{n-1}, close, __exit__ without / with a pending exception
@@ -237,6 +263,31 @@ def h_c07_writer(env, pattern, family="c07seq"):
         k = call
         meth = "write_x%d" % k
         value = [env.int("v0", -2**31, 2**31 - 1), env.int("v1", -2**31, 2**31 - 1)] if pattern[k] == "S" else env.int("v", -2**31, 2**31 - 1)
+        if env.choice("implementation-raises", 2) == 1:
+            # event: the implementation layer raises inside _write_<step>.  One inductive step again: the post-state must encode the
+            # specification's "step not written, a previous stream ended for good" state, so that - by the other steps of this
+            # simulation - every continuation (retry, another write to the previous stream, close) is accepted iff the automaton accepts it
+            failing.add(k)
+            ok, e = env.attempt(getattr(w, meth), value)
+            accept = lift(st, states, lambda s: spec.write(s, k) is not None)
+            if ok:
+                return env.fail("c07.writer-implementation-error-propagates", "py:%s.%s:implementation-error-swallowed" % (cname, meth), "the exception raised by _%s did not reach the caller" % meth)
+            env.observe("outcome", type(e).__name__ + " " + "/".join(hook_names(log)))
+            if isinstance(e, ImplError):
+                env.reach("c07.writer-implementation-error-propagates")
+                env.check("c07.writer-accepts-only-in-order", accept, "py:%s.%s:out-of-order-call-accepted" % (cname, meth), "the implementation was invoked in a state where the specification rejects the call")
+                env.check("c07.writer-hooks-as-specified", lift(st, states, lambda s: spec.write_failed(s, k) is not None and spec.write_failed(s, k)[0] == hook_names(log)),
+                          "py:%s.%s:wrong-hooks" % (cname, meth), "hooks invoked: %s" % hook_names(log))
+                env.check("c07.writer-state-after-failed-write", lift(st, states, lambda s: spec.write_failed(s, k) is not None and EQ(w._state, enc(spec.write_failed(s, k)[1]))),
+                          "py:%s.%s:state-after-failed-implementation-write" % (cname, meth),
+                          "after _%s raised, the state is not `step %d not written, previous stream (if one was in progress) ended`: the ended stream could be written again / would be ended twice" % (meth, k))
+                return
+            if type(e).__name__ != "ProtocolError":
+                return env.fail("c07.writer-rejection-is-ProtocolError", "py:%s.%s:%s" % (cname, meth, type(e).__name__), str(e)[:80])
+            env.reach("c07.writer-rejection-is-ProtocolError")
+            env.check("c07.writer-rejects-only-out-of-order", NOT(accept), "py:%s.%s:in-order-call-rejected" % (cname, meth), "call rejected in a state where the specification accepts it")
+            env.check("c07.writer-rejected-call-has-no-effect", AND(EQ(w._state, st), log == []), "py:%s.%s:rejected-call-has-effect" % (cname, meth))
+            return
         ok, e = env.attempt(getattr(w, meth), value)
         accept = lift(st, states, lambda s: spec.write(s, k) is not None)
         if ok:
